@@ -44,6 +44,33 @@ class _EvJ(Evaluator):
         return super().ev(e)
 
 
+VIEW_METHODS = ("reshape", "ravel", "view", "squeeze", "transpose", "swapaxes", "flatten_view")
+
+
+def _view_source(e):
+    """Strip view-preserving wrappers: x.reshape(..), x.T, x[...], x.ravel() ... -> x"""
+    while True:
+        if isinstance(e, ast.Call) and isinstance(e.func, ast.Attribute) and e.func.attr in VIEW_METHODS:
+            e = e.func.value
+        elif isinstance(e, ast.Attribute) and e.attr in ("T", "real", "imag"):
+            e = e.value
+        elif isinstance(e, ast.Subscript):
+            e = e.value
+        else:
+            return e
+
+
+def _is_memoised(repo, q):
+    fi = repo.functions.get(q)
+    if fi is None:
+        return False
+    for d in getattr(fi.node, "decorator_list", []):
+        t = src(d)
+        if "lru_cache" in t or t.split("(")[0].split(".")[-1] in ("cache", "cached", "memoize", "memoized"):
+            return True
+    return False
+
+
 def d1_no_mutation(ctx):
     ctx.rule("D1", "in-place operations in fshift only touch fresh arrays when the input is real")
     repo = ctx.repo
@@ -82,6 +109,14 @@ def d1_no_mutation(ctx):
             v = d.value
             if v is None:
                 continue
+            base = _view_source(v)
+            if isinstance(base, ast.Call):
+                q = repo.resolve_call(fi, base)
+                if q and _is_memoised(repo, q):
+                    bad.append((f"view of the memoised result of {q.split('.')[-1]}()", d))
+                    continue
+            if isinstance(base, ast.Name) and base.id not in (param,) and base.id in fi.module.aliases and False:
+                pass
             alias = loc_name(v) == param or (isinstance(v, ast.Attribute) and v.attr in ("T", "real") and loc_name(v.value) == param) \
                 or (isinstance(v, ast.Subscript) and loc_name(v.value) == param and isinstance(v.slice, (ast.Slice, ast.Tuple)))
             if alias:
@@ -91,7 +126,10 @@ def d1_no_mutation(ctx):
                 complex_only = any(loc_name(t) == "do_fft" and not pol for t, pol in gs)
                 if not complex_only:
                     bad.append(("alias", d))
+        shared = [k for k, d in bad if k.startswith("view of the memoised")]
         ctx.check(not bad, fi, n, n, f"target `{var}` is a fresh array whenever the input is real",
+                  (f"`{src(n)[:70]}` modifies in place a {shared[0]}: the cached array is shared between calls, so one call's shift scales the phase ramp of every later "
+                   "call with the same length (shifts no longer add up; a zero shift disables all later shifts)") if shared else
                   f"`{src(n)[:70]}` can modify the caller's array `{param}` in place (through {[(k, src(d.stmt)[:40] if d.stmt else 'parameter') for k, d in bad]}) for real input",
                   key="mut:" + var)
     # do_fft is the negation of "input is complex"
@@ -140,18 +178,30 @@ def d3_broadcast(ctx):
     repo = ctx.repo
     fi = repo.fn(FN)
     cfg = CFG(fi.node)
-    st = [n for n in walk_function(fi.node) if isinstance(n, ast.Assign) and isinstance(n.targets[0], ast.Subscript) and loc_name(n.targets[0].value) == "s_shape"]
-    ok = bool(st) and loc_name(st[0].targets[0].slice) == "axis" and const_value(st[0].value) == (True, 1)
-    sd = [n for n in walk_function(fi.node) if isinstance(n, ast.Assign) and loc_name(n.targets[0]) == "s_shape"]
-    ok = ok and bool(sd) and "w.shape" in src(sd[0].value)
-    rs = [n for n in walk_function(fi.node) if isinstance(n, ast.Assign) and loc_name(n.targets[0]) == "s" and "reshape" in src(n.value) and "s_shape" in src(n.value)]
-    ok = ok and bool(rs)
-    if ok:
-        gs = [(src(t), pol) for t, pol in cfg.guards(cfg.node_for(rs[0]))]
-        ok = any("isscalar(s)" in t and (("not" in t) == pol) for t, pol in gs)
-        ok = ok and cfg.must_pass([cfg.node_for(st[0])], cfg.node_for(rs[0]))
-    ctx.check(ok, fi, rs[0] if rs else fi.node, rs[0] if rs else "s.reshape(s_shape)", "each trace receives its own shift (broadcast across the shift axis)",
-              "per-trace shifts are not reshaped to w.shape with the shift axis set to 1: shifts are broadcast along the wrong axis", key="broadcast")
+    du = DefUse(fi.node, cfg)
+    # every s.reshape(<shape var>) : the shape var must be array(w.shape) with [axis] = 1 stored before, and the call must sit on the non-scalar path
+    rs = [c for c in find(fi.node, ast.Call, nested=False) if call_name(c) == "reshape" and isinstance(c.func, ast.Attribute) and loc_name(c.func.value) == "s" and c.args]
+    if not rs:
+        ctx.violation(fi, fi.node, "s.reshape(s_shape)", "per-trace shifts are never reshaped for broadcasting along the non-shift axes", key="broadcast")
+        return
+    for c in rs:
+        shp = loc_name(c.args[0])
+        ok = shp is not None
+        detail = ""
+        if ok:
+            sd = [d for d in du.reaching(shp, c) if d.kind == "assign"]
+            ok = bool(sd) and all(d.value is not None and "w.shape" in src(d.value) for d in sd)
+            st = [n for n in walk_function(fi.node) if isinstance(n, ast.Assign) and isinstance(n.targets[0], ast.Subscript) and loc_name(n.targets[0].value) == shp
+                  and loc_name(n.targets[0].slice) == "axis" and const_value(n.value) == (True, 1)]
+            ok = ok and bool(st) and cfg.must_pass([cfg.node_for(st[0])], cfg.node_for(c))
+            if not st:
+                detail = f"{shp}[axis] = 1 is missing"
+        gs = []
+        for t, pol in cfg.guards(cfg.node_for(c)):
+            gs += conjuncts(t, pol)
+        nonscalar = any(isinstance(t, ast.Call) and call_name(t) == "isscalar" and loc_name(t.args[0]) == "s" and not pol for t, pol in gs)
+        ctx.check(ok and nonscalar, fi, c, c, "each trace receives its own shift (broadcast across the shift axis)",
+                  f"per-trace shifts are not reshaped to w.shape with the shift axis set to 1 ({detail or 'shape / guard not as required'}): shifts are broadcast along the wrong axis", key="broadcast")
 
 
 def d4_sign(ctx):
